@@ -146,6 +146,21 @@ func (p *Program) WireCheckMode(ct codecType, mode string) (rep *FuncReport) {
 	gE, _ := mergeRets(frE)
 	// ---- decode ----
 	t0 := Sym("tail0", streamS)
+	if want := p.Store.WireOrder[typeKey(elem)]; len(want) > 0 {
+		// specified field order: the sequence of top-level fields of x that the successive
+		// items of the encoder's stream are computed from
+		got, ok := fieldOrderOf(ex.streamOf(ec, t0), x, elem)
+		same := ok && len(got) == len(want)
+		for i := 0; same && i < len(want); i++ {
+			same = got[i] == want[i]
+		}
+		goal := TTrue
+		if !same {
+			goal = TFalse
+			ex.note("wire-order of %s: specified %v, encoder transmits %v (stream closed: %v)", typeKey(elem), want, got, ok)
+		}
+		ex.oblige("enc/field-order", "wire", p.Pos(ct.Enc.Pos()), gE, goal)
+	}
 	rem0 := IntB(Pow2(62))
 	dc := ex.newCell(decT, "d")
 	dg := ex.ghostOf(dc, decS)
@@ -269,4 +284,45 @@ func (p *Program) wireTotal(ex *Exec, ct codecType, elem types.Type, decT types.
 	ex.stack = []*ssa.Function{ct.Dec}
 	frT := &Frame{ex: ex, fn: ct.Dec, con: p.Store.Funcs[ct.Dec.String()], prefix: "dec-any/", cells: map[ssa.Value]*Cell{}}
 	frT.run([]Val{PtrV{Cell: vc2, Elem: elem}, PtrV{Cell: dc2, Elem: decT}}, nil, mem3, TTrue)
+}
+
+// fieldOrderOf lists, in stream order, the top-level fields of x that the items of an encoder
+// stream depend on (consecutive repetitions collapsed; an item that depends on no field of x,
+// e.g. a constant tag, is skipped).  ok is false when the stream has no known shape.
+func fieldOrderOf(stream, x *Term, elem types.Type) (order []string, ok bool) {
+	st, _ := elem.Underlying().(*types.Struct)
+	if st == nil {
+		return nil, false
+	}
+	c := structCtor(elem)
+	fieldOf := map[*Term]string{}
+	for i := 0; i < st.NumFields(); i++ {
+		fieldOf[SelField(c, i, x)] = st.Field(i).Name()
+	}
+	s := stream
+	for {
+		if s.Op != "ctor" || len(s.Args) == 0 {
+			return order, s.Op == "sym" || (s.Op == "ctor" && len(s.Args) == 0)
+		}
+		// the last argument of an item constructor is the rest of the stream
+		rest := s.Args[len(s.Args)-1]
+		if rest.Sort != s.Sort {
+			return order, false
+		}
+		seen := map[string]bool{}
+		var names []string
+		collect(s.Args[:len(s.Args)-1], func(t *Term) {
+			if n, isF := fieldOf[t]; isF && !seen[n] {
+				seen[n] = true
+				names = append(names, n)
+			}
+		})
+		sort.Strings(names)
+		for _, n := range names {
+			if len(order) == 0 || order[len(order)-1] != n {
+				order = append(order, n)
+			}
+		}
+		s = rest
+	}
 }
